@@ -17,6 +17,7 @@ import (
 	"fmt"
 	"math/rand"
 	"os"
+	"runtime/debug"
 	"strings"
 	"sync"
 
@@ -150,7 +151,12 @@ func check(raw json.RawMessage) fw.Result {
 	if err := json.Unmarshal(raw, &in); err != nil {
 		return fw.Result{Verdict: fw.Inconclusive, Msg: err.Error()}
 	}
-	quietOnce.Do(wr.Quiet)
+	quietOnce.Do(func() {
+		wr.Quiet()
+		// an unbounded recursion (var() cycles) must end the worker quickly instead of first growing the
+		// stack to the 1 GB default: the style computation of a two-element document needs a few KB.
+		debug.SetMaxStack(64 << 20)
+	})
 	var res fw.Result
 	res.Verdict = fw.OK
 	witness := func() string {
